@@ -14,6 +14,7 @@ from .arrayhist import Viol
 
 CREATORS = ['asarray', 'create_array', 'asraggedarray', 'create_raggedarray', 'copy', 'ragged_copy', 'archive']
 DELETERS = ['delete_array', 'delete_raggedarray']
+STALE = ['delete_stale_array', 'delete_stale_ragged']
 OCCUPANTS = ['array', 'array_meta', 'array_big', 'ragged', 'ragged_meta', 'plaindir', 'plainfile', 'missing']
 FKINDS = ['file', 'dir', 'symfile', 'symdir', 'collision', 'hidden', 'emptydir']
 
@@ -26,7 +27,7 @@ class Foreign(Engine):
 
     def gen(self, rng, i, tier):
         occ = rng.choice(OCCUPANTS)
-        act = rng.choice(DELETERS * 3 + CREATORS)
+        act = rng.choice(DELETERS * 3 + CREATORS + STALE)
         ops = []
         if occ not in ('plainfile', 'missing'):
             for _ in range(rng.choice([0, 1, 1, 1, 2, 3])):
@@ -101,6 +102,15 @@ class Foreign(Engine):
         target = os.path.join(parent, 't.darr')
         occ = sc['occupant']
         handle = None
+        stale = None
+        if sc['action']['act'] in STALE:
+            # an r+ object of an array that is then deleted through its path; the path is reused afterwards
+            if sc['action']['act'] == 'delete_stale_array':
+                stale = darr.asarray(target, np.arange(3.), accessmode='r+', metadata={'old': 1})
+                darr.delete_array(target)
+            else:
+                stale = darr.asraggedarray(target, [np.arange(2.)], accessmode='r+', metadata={'old': 1})
+                darr.delete_raggedarray(target)
         if occ in ('array', 'array_meta', 'array_big'):
             n = 50 if occ == 'array_big' else 4
             handle = darr.asarray(target, np.arange(n * 2, dtype='<i4').reshape(n, 2), accessmode='r+',
@@ -112,6 +122,10 @@ class Foreign(Engine):
             os.makedirs(target)
             with open(os.path.join(target, 'userfile.txt'), 'wb') as f:
                 f.write(b'user data\n')
+            if stale is not None:
+                for nm in ('README.txt', 'metadata.json'):       # a user's own files that happen to have these names
+                    with open(os.path.join(target, nm), 'wb') as f:
+                        f.write(b'not written by Darr\n')
         elif occ == 'plainfile':
             with open(target, 'wb') as f:
                 f.write(b'i am a plain file\n')
@@ -119,6 +133,8 @@ class Foreign(Engine):
         foreign = set()
         if occ == 'plaindir':
             foreign.add('t.darr/userfile.txt')
+            if stale is not None:
+                foreign.update({'t.darr/README.txt', 't.darr/metadata.json'})
         if occ == 'plainfile':
             foreign.add('t.darr')
         for j, op in enumerate(sc['ops']):
@@ -181,6 +197,10 @@ class Foreign(Engine):
                 darr.delete_array(handle if (form == 'object' and handle is not None) else tpath)
             elif act == 'delete_raggedarray':
                 darr.delete_raggedarray(handle if (form == 'object' and handle is not None) else tpath)
+            elif act == 'delete_stale_array':
+                darr.delete_array(stale)
+            elif act == 'delete_stale_ragged':
+                darr.delete_raggedarray(stale)
             elif act == 'asarray':
                 src_arr = np.arange(a['rows'] * 3, dtype='<i2').reshape(a['rows'], 3)
                 if a.get('source_fails'):
@@ -243,7 +263,17 @@ class Foreign(Engine):
                 raise Viol('foreign.destroyed', f'{tag}:{how}', f'{rel} ({"raised " + type(exc).__name__ if exc else "no exception"})')
         is_array = occ.startswith('array')
         is_ragged = occ.startswith('ragged')
-        if act in DELETERS:
+        if act in STALE:
+            # whatever lives at the path now is not the array this object was made for
+            same_kind = (act == 'delete_stale_array' and is_array) or (act == 'delete_stale_ragged' and is_ragged)
+            if not same_kind:
+                d = snap_diff(pre, post)
+                if d:
+                    raise Viol('foreign.stale_object', f'{tag}:changed', d)
+                if exc is None and occ != 'missing':
+                    raise Viol('foreign.stale_object', f'{tag}:no_exception', '')
+            st['probes']['stale_object_delete'] = 1
+        elif act in DELETERS:
             right = (act == 'delete_array' and is_array) or (act == 'delete_raggedarray' and is_ragged)
             if not right:
                 if not isinstance(exc, TypeError):
